@@ -7,9 +7,10 @@ OBLIGATIONS = [
     ob('C17.bad_entry', W + 'c17_bad_entry', 'the same world: an unreadable directory entry is reported once against its directory and every readable entry is still a row; an entry whose type cannot be determined is still a row and only what is below it is lost, with one diagnostic', units=['walk'], complete=False, bound='2 fault scenarios'),
     ob('C17.closed_pipe.bfs', W + 'c17_closed_pipe_bfs', 'the same world, for every point 0..5 at which the consumer closes the pipe breadth-first: exactly the rows written before remain, no error is counted, nothing panics (unwinding assertions hold)', units=['walk'], complete=False, bound='one scripted tree, close after 0..5 rows'),
     ob('C17.closed_pipe.dfs', W + 'c17_closed_pipe_dfs', 'the same, depth-first', units=['walk'], complete=False, bound='one scripted tree, close after 0..5 rows'),
+    ob('C17.linecount', 'verif_frag::linecount::c17_linecount', 'the WHOLE real util::get_line_count (verbatim on a scripted file of up to three chunks): a file that cannot be opened, or whose read fails at any point - first chunk, a later chunk, the end-of-file probe - has NO line count (the column is empty), never a partial one; a readable file has exactly the number of line feeds of all its chunks', units=['linecount'], complete=False, bound='files of <= 3 chunks of 1..3 symbolic bytes'),
     ob('C17.status', 'verif_frag::status::c10_status', 'error_count -> exit status: 0 iff no error was counted, else 1 (same harness as C10.status)', units=['status']),
 ]
-CANARIES = [dict(harness=W + 'canary_walk_must_fail', units=['walk'])]
+CANARIES = [dict(harness=W + 'canary_walk_must_fail', units=['walk']), dict(harness='verif_frag::linecount::canary_linecount_must_fail', units=['linecount'])]
 ASSUMPTIONS = ['the scripted file system stands for the OS: read_dir / the directory iterator / file_type fail where the harness says so; check_file reports a closed pipe by returning Ok(false)']
-NOT_COVERED = ['unreadable file content (hash, line_count, contains, is_shebang columns) and dangling links: get_field_value over the OS', 'the text of the diagnostics on standard error', 'the closed-pipe handling inside check_file / the output loops themselves (the ordered-output loop is proved under C09)']
+NOT_COVERED = ['unreadable file content for the hash, contains and is_shebang columns, and how get_field_value turns a missing line count into an empty cell; dangling links', 'the text of the diagnostics on standard error', 'the closed-pipe handling inside check_file / the output loops themselves (the ordered-output loop is proved under C09)']
 HARNESS_TIMEOUT = 900
